@@ -14,8 +14,8 @@ func vRegister(builtin bool) {
 		RegisterEntityAccessor(MIME_XML, NewEntityAccessorXML(MIME_XML))
 		return
 	}
-	vRegistered = []string{"a/j", "a/x"}
-	RegisterEntityAccessor("a/j", NewEntityAccessorJSON("a/j"))
+	vRegistered = []string{"a/J", "a/x"}
+	RegisterEntityAccessor("a/J", NewEntityAccessorJSON("a/J"))
 	RegisterEntityAccessor("a/x", NewEntityAccessorXML("a/x"))
 }
 
@@ -24,15 +24,15 @@ func vProducesCfg(k int) []string {
 	case 0:
 		return []string{"a/x"}
 	case 1:
-		return []string{"a/j", "a/x"}
+		return []string{"a/J", "a/x"}
 	case 2:
-		return []string{"a/x", "a/j"}
+		return []string{"a/x", "a/J"}
 	case 3:
 		return []string{MIME_XML}
 	case 4:
 		return []string{MIME_JSON, MIME_XML}
 	}
-	return []string{"u/u", "a/j"} // first entry has no registered writer
+	return []string{"u/u", "a/J"} // first entry has no registered writer
 }
 
 func vDigit(b int) bool { return vAnd(b >= '0', b <= '9') }
@@ -116,7 +116,7 @@ func H_C05(prodCfg, mode, capN, part, nparts int) {
 	} else if mode == 3 {
 		// skeleton: two ranges over registered types or */*, each with one parameter whose name and
 		// value are symbolic (capN bytes together); reaches parameter handling at a small cost
-		menu := []string{"a/j", "a/x", "*/*"}
+		menu := []string{"a/J", "a/x", "*/*"}
 		maxParams = 1
 		accept = menu[nondetChoice("m0", 3)] + ";" + nondetFixed("pn0", 1+nondetChoice("pnlen", 2)) + "=" + nondetFixed("pv0", capN) + "," + menu[nondetChoice("m1", 3)]
 	} else {
@@ -149,6 +149,12 @@ func H_C05(prodCfg, mode, capN, part, nparts int) {
 		w1, ok1 := resp.EntityWriter()
 		w2, ok2 := resp.EntityWriter()
 		verifAssert(ok1 == ok2 && w1 == w2, "C05: the same request does not always get the same representation (map iteration order)")
+		if nondetBool("trace") {
+			EnableTracing(true)
+			w3, ok3 := resp.EntityWriter()
+			EnableTracing(false)
+			verifAssert(ok1 == ok3 && w1 == w3, "C05: trace logging changes the representation chosen for the same request")
+		}
 		werr = resp.WriteEntity(vEntity{A: 1, B: "x"})
 	}))
 	c.Add(ws)
